@@ -41,6 +41,9 @@ def backslash_runs():
 
 
 # literals that are format templates (messages built with % / str.format / f-strings) or quote mixtures
+# combining sequences / characters that normalisation, casing or width logic may treat specially
+COMBINING = ['e\u0301', 'o\u0308', 'A\u030a', '\u1100\u1161', '=\u0338', 'e\u0323\u0301', '\u0301', 'a\u200d', '\ufe0f', '\u212b', 'ǆ', 'ﬁ', 'ß', 'İ', 'ı',
+             '\u0345', 'Σς', '\U0001F1E9\U0001F1EA']
 TEMPLATES = ['%', '100%', '%d', '%s items', '%%', '%(a)s', 'a%', '{0}', '{}', '{a}', '{0!r}', '{{', '}}', '{0', "'", '"', "'\"", "a'b", 'a"b',
              "\\'", "\\'\"", "'\\", "it's \\'q\\'", '\\"', "\\\\'", '$&', '\\g<0>', '\\0']
 
@@ -65,6 +68,7 @@ def hostile_strings(tier, rnd):
     out += LOOKALIKES
     out += backslash_runs()
     out += TEMPLATES
+    out += COMBINING
     if tier == 'thorough':
         out += [a + b + c for a in SIGMA2 for b in SIGMA2 for c in SIGMA2 if rnd.random() < 0.5]
     n = 400 if tier == 'quick' else 6000
@@ -295,6 +299,77 @@ def meta_operand_programs():
                     yield {'prog': fn(y, x), 'form': f, 'w': 'W3m'}
         yield {'prog': OPN('cat', OPN('cap', x, name='m1'), L(' '), {'o': 'bref', 'r': 'm1'}), 'form': 'c', 'w': 'W3m'}
         yield {'prog': OPN('plus', OPN('cat', x, OPN('opt', L(',')))), 'form': 'm', 'w': 'W3m'}
+
+
+def deep_programs():
+    """nesting far beyond what random generation reaches: alternations / quantifiers / groups d levels deep, then used as
+    operand of every kind of composition"""
+    for d in (6, 9, 10, 13, 17, 33):
+        for step in ('optcat', 'grp', 'cap', 'alt'):
+            p = L('a')
+            for i in range(d):
+                if step == 'optcat':
+                    p = OPN('cat', OPN('opt', p), L('c'))
+                elif step == 'grp':
+                    p = OPN('grp', OPN('cat', p, L('c')), ci=(i % 5 == 4))
+                elif step == 'cap':
+                    p = OPN('cap', OPN('cat', L('c'), p))
+                else:
+                    p = OPN('cat', OPN('alt', p, L('dd')), L('c'))
+            tops = [p, OPN('alt', p, L('b')), OPN('alt', L('b'), p), OPN('alt', p, L('b'), f='m')]
+            for t in tops:
+                yield {'prog': OPN('cat', t, L('x')), 'form': 'c', 'w': 'Wdeep'}
+                yield {'prog': OPN('cat', L('x'), t), 'form': 'o', 'w': 'Wdeep'}
+                yield {'prog': OPN('cat', t, L('x')), 'form': 'm', 'w': 'Wdeep'}
+                yield {'prog': OPN('enc', t, L('x')), 'form': 'c', 'w': 'Wdeep'}
+                yield {'prog': OPN('mas', t), 'form': 'c', 'w': 'Wdeep'}
+                yield {'prog': OPN('male', t), 'form': 'm', 'w': 'Wdeep'}
+                yield {'prog': OPN('fol', t, L('z')), 'form': 'c', 'w': 'Wdeep'}
+                yield {'prog': OPN('nfol', L('z'), t), 'form': 'c', 'w': 'Wdeep'}
+                yield {'prog': OPN('plus', t), 'form': 'c', 'w': 'Wdeep'}
+                yield {'prog': OPN('q', t, n=2, m=3), 'form': 'm', 'w': 'Wdeep'}
+                yield {'prog': OPN('cap', t, name='top'), 'form': 'c', 'w': 'Wdeep'}
+                yield {'prog': OPN('grp', t, ci=True), 'form': 'm', 'w': 'Wdeep'}
+                yield {'prog': OPN('cond', t, L('y'), name='g1'), 'form': 'c', 'w': 'Wdeep'}
+
+
+def many_operand_programs():
+    """operators with dozens to a thousand operands, with and without empty operands at block-boundary positions"""
+    for n in (31, 32, 33, 40, 64, 65, 100, 257, 1025):
+        words = [L('w%d' % i) for i in range(n)]
+        for op in ('alt', 'cat', 'enc'):
+            if op == 'enc' and n > 100:
+                continue
+            yield {'prog': OPN(op, *words), 'form': 'c', 'w': 'Wmany'}
+            for at in sorted({0, 1, 15, 16, 31, 32, 33, 63, 64, 65, 127, 128, 255, 256, 1023, 1024, n - 2, n - 1}):
+                if not (0 <= at < n) or (n > 300 and at not in (0, 1023, 1024)):
+                    continue
+                for e in (E(0), E(1), E(5))[:1 if n > 300 else 3]:
+                    ws = list(words)
+                    ws[at] = e
+                    yield {'prog': OPN(op, *ws), 'form': 'c', 'w': 'Wmany'}
+        yield {'prog': OPN('cat', OPN('alt', *words), L('x')), 'form': 'c', 'w': 'Wmany'}
+        yield {'prog': OPN('plus', OPN('alt', *words)), 'form': 'c', 'w': 'Wmany'}
+        if n <= 100:
+            for lk in ('fol', 'nfol', 'npre'):
+                yield {'prog': OPN(lk, L('m'), *words), 'form': 'c', 'w': 'Wmany'}
+
+
+BIG_BOUNDS = [255, 256, 257, 1000, 65534, 65535, 65536, 70000, 2 ** 31 - 1]
+
+
+def big_bound_programs():
+    for x in (L('a'), L('ab'), CLS('AnyDigit'), OPN('alt', L('x'), L('yz'))):
+        for b in BIG_BOUNDS:
+            for f in 'cm':
+                yield {'prog': OPN('am', x, n=b), 'form': f, 'w': 'W5big'}
+                yield {'prog': OPN('al', x, n=b), 'form': f, 'w': 'W5big'}
+                yield {'prog': OPN('q', x, n=2, m=b), 'form': f, 'w': 'W5big'}
+                yield {'prog': OPN('q', x, n=b, m=b), 'form': f, 'w': 'W5big'}
+                yield {'prog': OPN('q', x, n=b, m=None), 'form': f, 'w': 'W5big'}
+                yield {'prog': OPN('q', x, n=b, m=b + 1, g=False), 'form': f, 'w': 'W5big'}
+            yield {'prog': OPN('ex', x, n=b), 'form': 'o', 'w': 'W5big'}
+            yield {'prog': OPN('ex', x, n=b), 'form': 'c', 'w': 'W5big'}
 
 
 def unary_templates():
@@ -556,6 +631,7 @@ def quant_operands():
             OPN('cat', OPN('cap', OPN('cat', L('a'), FROM('(', 'x'))), OPN('cap', OPN('cat', L('b'), FROM(')', 'y')))),
             OPN('cat', OPN('grp', FROM('(')), OPN('grp', FROM(')'))), OPN('cap', BTW('(', '\\')), OPN('star', L('a')), OPN('star', CLS('Any')),
             OPN('plus', L('a')), OPN('star', OPN('cap', OPN('alt', L('a'), L('b')))), L('\\\\'),
+            L('e\u0301'), L('\u1100\u1161'), L('=\u0338'), L('\U0001F600'), PL('o\u0308'),
             ]
 
 
